@@ -427,9 +427,10 @@ RC_IDS = list(RC_IDS_UNREPAIRED)
 
 def set_shape():
     """ask the model which text of the tokeniser Consts.v was generated from"""
-    fixed = _mb().call("c06_info", [["x"]])[0][0] == "1"
+    info = _mb().call("c06_info", [["x"]])[0]
+    fixed = info[0] == "1"
     RC_IDS[:] = RC_IDS_REPAIRED if fixed else RC_IDS_UNREPAIRED
-    return fixed
+    return "tokeniser+typing" if (fixed and len(info) > 1 and info[1] == "1") else ("tokeniser" if fixed else "")
 
 
 def load_corpus():
@@ -648,7 +649,7 @@ def run(tier, seed, replay=None):
 
     total = Batch()
     repaired = set_shape()
-    run.notes.append("tokeniser of VERIF_REPO: %s (Gen.Consts.nt_fixed_tok)" % ("repaired" if repaired else "as it was"))
+    run.notes.append("repairs present in VERIF_REPO: %s (Gen.Consts.nt_fixed_tok / nt_fixed_dlt)" % (repaired or "none"))
     t_start = time.time()
     docs = None
     if replay:
@@ -726,7 +727,7 @@ def run(tier, seed, replay=None):
     run.coverage.update({
         "evaluations": total.n + (docs["docs"] if docs else 0) + len(corpus),
         "regression_corpus": {"cases": len(corpus), "failing": [c["file"] for c in corpus_fail]},
-        "tokeniser_repaired": repaired,
+        "repairs_present": repaired or "none",
         "distinct_nontrivial": total.nontrivial + len(total.hashes),
         "rule": "non-trivial = literal object with a non-empty lexical form.  Main product: distinct by construction "
                 "(no symbol of the alphabet is a concatenation of others, every other factor changes the line), "
